@@ -1,5 +1,6 @@
 import OjgVerif.Common.Driver
 import OjgVerif.JPText.Spec
+import OjgVerif.JPText.Bracket
 /-! Driver ops of the JSONPath text family.
 
 Objects travel as space-separated prefix tokens:
@@ -9,6 +10,10 @@ Objects travel as space-separated prefix tokens:
     mem   ::= K <hex> | I <int>
     eqn   ::= V val | U1 <op> eqn | B2 <op> eqn eqn          (<op> is the Go variable name: eq, neq, …)
     val   ::= n | 0 | t | f | i <int> | d <hex> | s <hex> | l <n> val*n | x expr | r <hex>
+
+An API-built expression with `Bracket` flag fragments (ops `bxprint`, `bxjudge` only):
+
+    bexpr ::= X <n> (frag | P)*n                              (P: the flag, top level only)
 
 Text produced from a PARSED object has every float constant wrapped in two `01 7f 02` markers (the model
 keeps the literal as written; the harness puts it through `strconv.ParseFloat`/`FormatFloat`).
@@ -125,6 +130,32 @@ def decodeEqn (s : String) : Option Eqn :=
   | some (e, []) => some e
   | _ => none
 
+/-- an expression with `Bracket` flags (token `P`) at the top level -/
+partial def decBFrags : Nat → List String → Option (BExpr × List String)
+  | 0, r => some ([], r)
+  | k+1, "P" :: r =>
+    match decBFrags k r with
+    | some (fs, r2) => some (none :: fs, r2)
+    | none => none
+  | k+1, r =>
+    match decFrag r with
+    | some (f, r2) =>
+      match decBFrags k r2 with
+      | some (fs, r3) => some (some f :: fs, r3)
+      | none => none
+    | none => none
+
+def decodeBExpr (s : String) : Option BExpr :=
+  match toks s with
+  | "X" :: n :: r =>
+    match n.toNat? with
+    | some k =>
+      match decBFrags k r with
+      | some (x, []) => some x
+      | _ => none
+    | none => none
+  | _ => none
+
 /-! float tagging of parsed objects -/
 mutual
   def Frag.tag : Frag → Frag
@@ -179,6 +210,17 @@ def handle : List String → String
   | ["xjudge", br, ast] =>
     match parseBr br, decodeExpr ast with
     | some b, some x => b01 (roundTripsExpr b x) ++ " " ++ b01 (Frag.okL x) ++ " " ++ devList (devsExpr b x)
+    | _, _ => "bad-op"
+  | ["bxprint", br, ast] =>
+    match parseBr br, decodeBExpr ast with
+    | some b, some x => toHexF (bexprPrint b x)
+    | _, _ => "bad-op"
+  | ["bxjudge", br, ast] =>
+    -- round trip with flags, constructible, deviations of the flag-free expression, the two flag deviations
+    match parseBr br, decodeBExpr ast with
+    | some b, some x =>
+      b01 (roundTripsBExpr b x) ++ " " ++ b01 (Frag.okL (stripB x)) ++ " " ++ devList (devsExpr b (stripB x)) ++ " " ++
+        b01 (bracketReprint b x) ++ " " ++ b01 (bracketLast x)
     | _, _ => "bad-op"
   | ["eprint", ast] =>
     match decodeEqn ast with
